@@ -122,6 +122,8 @@ def cand(name, s, i):
         for e in _digits(s, i, 1):
             if s[i] != "0":
                 yield e
+        if s[i:i + 1] == "0":
+            yield i + 1      # a build id of zero is written as `0`
     elif name in ("MAJOR", "MINOR", "PATCH"):
         yield from _digits(s, i, 1)
     elif name == "tag":
